@@ -104,6 +104,9 @@ class Engine:
 
     def _dispatch_call(self, c, fn, args, kwargs, node):
         I = self.interp
+        fn = c.force(fn)
+        args = [c.force(x) for x in args]
+        kwargs = {k: (c.force(v) if k != "$starstar" else v) for k, v in kwargs.items()}
         if isinstance(fn, Closure):
             key = f"{fn.frame.module.__name__}:{fn.qual}"
             ct = self.contracts.get(key)
